@@ -77,15 +77,30 @@ func c19Shipped(rng *rand.Rand, n int, _ []string) {
 		valid, broken []string
 		run           func(text string, errs *[][2]int) string
 	}
+	// one Parser per target, initialised once and reused for every second input
+	reuse := false
+	failed := false // Parse returned a syntax error
+	var cur *[][2]int
+	var jsP js.Parser
+	jsP.Init(func(e js.SyntaxError) bool { *cur = append(*cur, [2]int{e.Offset, e.Endoffset}); return true }, func(t js.NodeType, offset, endoffset int) {})
+	var tmP tm.Parser
+	tmP.Init(func(e tm.SyntaxError) bool { *cur = append(*cur, [2]int{e.Offset, e.Endoffset}); return true }, func(t tm.NodeType, offset, endoffset int) {})
 	targets := []target{
 		{"js", c19JSValid, c19JSBroken, func(text string, errs *[][2]int) string {
 			return guarded(func() {
 				l := func(t js.NodeType, offset, endoffset int) {}
 				var s js.TokenStream
 				s.Init(text, l)
-				var p js.Parser
-				p.Init(func(e js.SyntaxError) bool { *errs = append(*errs, [2]int{e.Offset, e.Endoffset}); return true }, l)
-				p.ParseModule(context.Background(), &s)
+				var err error
+				if reuse {
+					cur = errs
+					err = jsP.ParseModule(context.Background(), &s)
+				} else {
+					var p js.Parser
+					p.Init(func(e js.SyntaxError) bool { *errs = append(*errs, [2]int{e.Offset, e.Endoffset}); return true }, l)
+					err = p.ParseModule(context.Background(), &s)
+				}
+				_, failed = err.(js.SyntaxError)
 			})
 		}},
 		{"tm", tmValid, tmBroken, func(text string, errs *[][2]int) string {
@@ -93,9 +108,16 @@ func c19Shipped(rng *rand.Rand, n int, _ []string) {
 				l := func(t tm.NodeType, offset, endoffset int) {}
 				var s tm.TokenStream
 				s.Init(text, l)
-				var p tm.Parser
-				p.Init(func(e tm.SyntaxError) bool { *errs = append(*errs, [2]int{e.Offset, e.Endoffset}); return true }, l)
-				p.ParseFile(context.Background(), &s)
+				var err error
+				if reuse {
+					cur = errs
+					err = tmP.ParseFile(context.Background(), &s)
+				} else {
+					var p tm.Parser
+					p.Init(func(e tm.SyntaxError) bool { *errs = append(*errs, [2]int{e.Offset, e.Endoffset}); return true }, l)
+					err = p.ParseFile(context.Background(), &s)
+				}
+				_, failed = err.(tm.SyntaxError)
 			})
 		}},
 		{"test", c19TestValid, c19TestBroken, func(text string, errs *[][2]int) string {
@@ -154,7 +176,12 @@ func c19Shipped(rng *rand.Rand, n int, _ []string) {
 			valid = 0
 		}
 		var errs [][2]int
+		reuse = (i/4)%2 == 1
+		failed = false
 		st := tg.run(text, &errs)
+		if st == "ok" && failed && len(errs) == 0 {
+			st = "unreported" // Parse returned a syntax error that the handler never saw
+		}
 		if strings.HasPrefix(st, "panic:") {
 			st = "panic"
 		}
